@@ -7,6 +7,7 @@ package ip
 // C02: a target is accepted only as an IPv4 network (4-byte address, 4-byte canonical mask); every text that
 // contains a colon (every IPv6 form, including IPv4-mapped ones) is refused with ErrInvalidAddr; never a panic.
 //@ func ParseIPNet
+//@   sig subnet
 //@   props C02 C18 C01 C03 C13 C17 C08
 //@   modifies nothing
 //@   ensures ipv4only: ret1 == nil ==> ret0 != nil && len(ret0.IP) == 4 && len(ret0.Mask) == 4 && canonical(content(ret0.Mask))
@@ -17,6 +18,7 @@ package ip
 // C17: the FIRST interface (in system order) that has an address network containing the target's base address is
 // chosen, together with that network's own address; a lookup error aborts; none attached -> nil
 //@ func GetLocalSubnetInterface
+//@   sig dstSubnet
 //@   props C17 C05 C02 C11
 //@   observe net.Interfaces, GetLocalSubnetInterfaceIP
 //@   entry row nolist: [call net.Interfaces() as (ifs, e)] when e != nil && ret2 == e -> exit
@@ -29,6 +31,7 @@ package ip
 
 // the address returned for an interface is the address of the FIRST of its networks that contains the target base
 //@ func GetLocalSubnetInterfaceIP
+//@   sig iface, dstSubnet
 //@   props C17 C05 C02 C11
 //@   observe Mask, Addrs, Contains
 //@   entry row noaddrs: [call Mask(dstSubnet.IP, dstSubnet.Mask) as (base) ; call Addrs(iface) as (as, e)] when e != nil && ret0 == nil && ret1 == e -> exit
@@ -40,6 +43,7 @@ package ip
 
 // first address of an interface
 //@ func GetInterfaceIP
+//@   sig iface
 //@   props C17 C05 C02 C11
 //@   observe Addrs, fmt.Errorf
 //@   entry row none:  [call Addrs(iface) as (as, e)] when (e != nil || len(as) == 0) && ret0 == nil && ret1 == e -> exit
@@ -65,6 +69,7 @@ package ip
 // default gateway of an interface (C11): among the default routes (no Dst, no Src) through THIS link, the gateway of
 // the first one with the strictly lowest metric; other routes change nothing
 //@ func GetDefaultGatewayIP
+//@   sig iface
 //@   props C11 C17 C05 C02
 //@   observe netlink.RouteList
 //@   entry row nolist: [call netlink.RouteList(_, _) as (rs, e)] when e != nil && ret1 == e -> exit
